@@ -24,6 +24,13 @@ Definition false_marker_clause (c_requirements : vkey -> res (list req))
     In (i, j, rq_ver d, rq_type d) (g_edges g) ->
     keep marker_true (extras_in_force g i) d = Ok true.
 
+(* every edge stands for a requirement of its source version (the graph is the solution: nothing in it
+   may come from a version that was not selected) *)
+Definition edges_sound_clause (c_requirements : vkey -> res (list req)) (g : graph) : Prop :=
+  forall i j rqv ty v w, In (i, j, rqv, ty) (g_edges g) ->
+    nth_error (g_nodes g) i = Some v -> nth_error (g_nodes g) j = Some w ->
+    exists l d, c_requirements v = Ok l /\ In d l /\ rq_ver d = rqv /\ rq_type d = ty /\ rq_name d = vk_name w.
+
 (* ---------- boolean checks of the hypotheses on a table client ---------- *)
 Fixpoint nodup_bytes_b (l : list bytes) : bool :=
   match l with
@@ -44,3 +51,7 @@ Definition table_ok_b (t : table) : bool :=
 Definition no_edge_b (g : graph) (i : nat) (d : req) : bool :=
   forallb (fun e => let '(f, _, rq, ty) := e in
                     negb (Nat.eqb f i && bytes_eqb rq (rq_ver d) && deptype_eqb ty (rq_type d))) (g_edges g).
+
+(* no requirement of the list carries this label towards this package *)
+Definition no_req_b (l : list req) (pkg rqv : bytes) (ty : deptype) : bool :=
+  forallb (fun d => negb (bytes_eqb (rq_name d) pkg && bytes_eqb (rq_ver d) rqv && deptype_eqb (rq_type d) ty)) l.
